@@ -71,7 +71,7 @@ def render(spec, layout, rng):
         if t in consts.values() and n in consts:
             if not inline or n in must_keep:
                 wires.append(n)
-                body.append(f"assign{w(True)}{n}{w()}={w()}1'b{t}{w()};")
+                body.append(f"assign{w(True)}{n}{w()}={w()}1'{'h' if layout % 3 == 1 else 'b'}{t}{w()};")
             continue
         if t in ("input", "bb_input", "bb_output"):
             continue
@@ -83,7 +83,7 @@ def render(spec, layout, rng):
             continue  # driven by a blackbox output pin: emitted with the instance
         if t == "buf" and rng.random() < 0.5:
             src = fi[0]
-            rhs = "1'b" + consts[src] if (src in consts and inline and src not in must_keep) else src
+            rhs = ("1'h" if layout % 3 == 2 else "1'b") + consts[src] if (src in consts and inline and src not in must_keep) else src
             body.append(f"assign{w(True)}{n}{w()}={w()}{rhs}{w()};")
             continue
         gi[0] += 1
